@@ -46,6 +46,11 @@ def obligations(c):
     return out
 
 
+def conc_obls(P):
+    from ..conccheck import ob_stats
+    return [ob_stats(P), {'name': 'reach: both threads complete', 'kind': 'witness', 'goal': P.live}]
+
+
 def prop(c):
     return obligations(c) + [reach_witness(c), busy_witness(c)]
 
@@ -79,7 +84,15 @@ def run(tier, seed):
     from .c01 import STD_ASSUMPTIONS
     run.assumptions = STD_ASSUMPTIONS + ['positive order quantities (quantifier of C15)',
                                          'counters are compared modulo 2^64 (they are wrapping atomics)',
-                                         'concurrent half of C15 (lost updates under interleaving) is not covered by this check: see MANIFEST level text']
+                                         'concurrent half: two threads with one operation each, every well-nested interleaving (see C03 for the schedule bound)']
     run_hist(run, prop, cs, timeout=300 if tier == 'quick' else 900)
+    # concurrent half: two threads, every well-nested placement, counters compared with the events at quiescence
+    if not os.environ.get('VERIF_CUBES'):
+        from ..conccheck import run_conc
+        from .c03 import base as cbase
+        progs = ['CM', 'MC', 'AM', 'MA', 'CC', 'AC', 'CA', 'AA'] + (['MM', 'QM', 'MQ'] if tier != 'quick' else [])
+        b = dict(cbase(tier), price=cs[0]['price'], positive_quantities=True)
+        run.bounds['concurrent'] = {'threads': 2, 'operations_per_thread': 1, 'programs': progs, 'match_loop_unwind': b['match_unwind']}
+        run_conc(run, progs, 'emir.checks.c15.conc_obls', timeout=300, base=b)
     return run.finish(explanation='per operation, the four counters named by the statement must move by exactly the events of that operation, '
                                   'from arbitrary counter values (so any history length is covered) and inside bounded histories from a new level')
